@@ -71,6 +71,7 @@ _S = {}
 K_POW = "C10:partial-resolution-pow-number-base-symbolic-exponent-TypeError"
 K_PHFSIM = "C10:parameter-names-missing:PhasedFSimGate"
 K_ZIPLONGEST = "C10:sweep-add-flattens-ZipLongest-operand"
+K_MOMENT_EQ = "C10:moment-resolve-returns-self-for-value-equal-operation"
 
 
 # =============================================================================================== helpers
@@ -183,7 +184,7 @@ def setup(ctx):
     orig_fail, seen = ctx.fail, {}
 
     def fail(mech, msg, **witness):
-        if mech in (K_POW, K_PHFSIM, K_ZIPLONGEST):
+        if mech in (K_POW, K_PHFSIM, K_ZIPLONGEST, K_MOMENT_EQ):
             seen[mech] = seen.get(mech, 0) + 1
             if seen[mech] > 3:
                 ctx.event("repeat:" + mech)
@@ -882,7 +883,24 @@ def _agg_names(mops):
     return names, names - other  # (all names, names visible through PhasedFSimGate parameters only)
 
 
-def check_resolved_ops(ctx, got_ops, mops, dims, env, how, subst=None, **wit):
+def _eq_blind(m):
+    """Is this a PhasedFSimGate whose value equality ignores a parameter that is symbolic here (theta = pi/2 mod pi
+    ignores zeta, theta = 0 mod pi ignores chi) while another parameter stays symbolic?  Moment resolution decides
+    "changed" by value equality, so resolving only the ignored parameter is silently dropped."""
+    import sympy
+
+    if m.spec.name != "PhasedFSim" or isinstance(m.params[0], sympy.Basic):
+        return False
+    th = float(m.params[0])
+    blind = None
+    if abs(math.cos(th)) < 1e-7:
+        blind = 1
+    elif abs(math.sin(th)) < 1e-7:
+        blind = 2
+    return blind is not None and isinstance(m.params[blind], sympy.Basic)
+
+
+def check_resolved_ops(ctx, got_ops, mops, dims, env, how, subst=None, multi_step=False, **wit):
     """Gate by gate: same wires, not parameterized any more, matrix == catalogue with the numbers substituted,
     tags resolved to the numbers."""
     import cirq
@@ -900,6 +918,8 @@ def check_resolved_ops(ctx, got_ops, mops, dims, env, how, subst=None, **wit):
         if not ok:
             allok = False
             mech = "C10:commute-unitary:%s:%s" % (how, m.spec.name)
+            if multi_step and u is None and _eq_blind(m) and tuple(op.qubits) == want_q:
+                mech = K_MOMENT_EQ  # explained: the moment kept `self` in an earlier step because the op compared equal
             ctx.check(False, "unitary(resolve)==catalogue", mech,
                       "%s: %s resolved to %s; %s" % (how, m.show(), repr(op)[:160],
                                                      "still parameterized / no unitary" if u is None else "matrix differs by %.3g" % L.maxdiff(u, ref)),
@@ -1000,7 +1020,14 @@ def sec_circuits(ctx, rng, case):
             Rm = cirq.resolve_parameters(C[i], r1)
             resolvable = mn & bound
             if Rm is C[i]:
-                ctx.check(not resolvable, "moment-identity-shortcut", "C10:identity-shortcut:moment",
+                mech = "C10:identity-shortcut:moment"
+                if resolvable:
+                    # explained-by: every operation that holds a bound symbol resolves correctly on its own but compares
+                    # equal to the original (value equality blind to the changed parameter)
+                    hit = [(op, m) for op, m in zip(C[i].operations, ops) if m.names() & bound]
+                    if hit and all(_eq_blind(m) and cirq.resolve_parameters(op, r1) == op for op, m in hit):
+                        mech = K_MOMENT_EQ
+                ctx.check(not resolvable, "moment-identity-shortcut", mech,
                           "Moment resolution returned self although %s occur in it" % sorted(resolvable), moment=i, bound=sorted(bound), **wit)
             else:
                 ctx.ok("moment-identity-shortcut")
@@ -1011,20 +1038,24 @@ def sec_circuits(ctx, rng, case):
             ctx.check(not (left & bound) and left <= mn, "partial-names-shrink", "C10:partial:names:moment",
                       "after resolving %s the moment still names %s" % (sorted(bound), sorted(left)), moment=i, **wit)
             Rm2 = cirq.resolve_parameters(Rm, rest) if rest else Rm
-            check_resolved_ops(ctx, list(Rm2.operations), ops, dims, env, "moment-partial-then-rest", moment=i, bound=sorted(bound), **wit)
+            check_resolved_ops(ctx, list(Rm2.operations), ops, dims, env, "moment-partial-then-rest", multi_step=True, moment=i, bound=sorted(bound), **wit)
         R1 = cirq.resolve_parameters(C, r1)
-        _identity_check(ctx, C, R1, names & bound, "circuit", bound=sorted(bound), **wit)
+        if R1 is C and (names & bound) and all(_eq_blind(m) for m in flat if m.names() & bound):
+            ctx.check(False, "identity-shortcut", K_MOMENT_EQ, "circuit: resolve returned self although %s were bound (every moment kept self)" % sorted(names & bound),
+                      bound=sorted(bound), **wit)
+        else:
+            _identity_check(ctx, C, R1, names & bound, "circuit", bound=sorted(bound), **wit)
         got_left = set(cirq.parameter_names(R1))
         ctx.check(not (got_left & bound), "partial-names-shrink", "C10:partial:names:circuit", "still names %s" % sorted(got_left & bound), **wit)
         R2 = cirq.resolve_parameters(R1, rest) if rest else R1
         for i, ops in enumerate(moments):
-            check_resolved_ops(ctx, list(R2[i].operations), ops, dims, env, "circuit-partial-then-rest", moment=i, bound=sorted(bound), **wit)
+            check_resolved_ops(ctx, list(R2[i].operations), ops, dims, env, "circuit-partial-then-rest", multi_step=True, moment=i, bound=sorted(bound), **wit)
     # ---- unrelated resolver: nothing resolvable, any `is` answer is fine, the content must not change
     Ru = cirq.resolve_parameters(C, {"zz": 0.5, sympy.Symbol("yy"): 1.5})
     _identity_check(ctx, C, Ru, set(), "circuit", **wit)
     Ru2 = cirq.resolve_parameters(Ru, full)
     for i, ops in enumerate(moments):
-        check_resolved_ops(ctx, list(Ru2[i].operations), ops, dims, env, "unrelated-then-full", moment=i, **wit)
+        check_resolved_ops(ctx, list(Ru2[i].operations), ops, dims, env, "unrelated-then-full", multi_step=True, moment=i, **wit)
     # ---- resolver composition and recursion through the circuit
     if names:
         S = sympy.Symbol
@@ -1036,13 +1067,14 @@ def sec_circuits(ctx, rng, case):
         Rr = cirq.resolve_parameters(C, dict(ra, **rb))  # one resolver holding the chain, recursive by default
         for i, ops in enumerate(moments):
             check_resolved_ops(ctx, list(Rc[i].operations), ops, dims, env, "composed-resolver", moment=i, **wit)
-            check_resolved_ops(ctx, list(Rt[i].operations), ops, dims, env, "two-step-resolution", moment=i, **wit)
+            check_resolved_ops(ctx, list(Rt[i].operations), ops, dims, env, "two-step-resolution", multi_step=True, moment=i, **wit)
             check_resolved_ops(ctx, list(Rr[i].operations), ops, dims, env, "chain-resolver", moment=i, **wit)
         # single step leaves the intermediate symbols
         Ro = cirq.resolve_parameters_once(C, dict(ra, **rb))
         want_once = {s + "_" for s in names}
         got_once = set(cirq.parameter_names(Ro)) | ({n + "_" for n in ph_only})
-        ctx.check(got_once == want_once, "single-step==one-substitution", "C10:single-step:circuit",
+        ctx.check(got_once == want_once, "single-step==one-substitution",
+                  K_MOMENT_EQ if any(_eq_blind(m) for m in flat) and got_once - want_once <= names else "C10:single-step:circuit",
                   "names after one step %s, expected %s" % (sorted(got_once), sorted(want_once)), **wit)
     nsym_ops = sum(1 for m in flat if m.names())
     ctx.distinct(("circuit", tuple(tuple(m.show() for m in ops) for ops in moments), frozen), nontrivial=nsym_ops >= 1 and len(flat) >= 2)
@@ -1878,8 +1910,8 @@ def sec_flatten(ctx, rng, case):
             R = cirq.resolve_parameters(cf, res)
             allok = True
             for j, ops in enumerate(moments):
-                allok = check_resolved_ops(ctx, list(R[j].operations), ops, dims, e, how, moment=j, index=i, **wit) and allok
-            ctx.check(allok, "flatten-gate-by-gate", "C10:flatten:" + how, "resolve(flat, transformed assignment) differs gate by gate from the original with the numbers substituted", index=i, **wit)
+                allok = check_resolved_ops(ctx, list(R[j].operations), ops, dims, e, how, multi_step=True, moment=j, index=i, **wit) and allok
+            ctx.check(allok, "flatten-gate-by-gate", K_MOMENT_EQ if any(_eq_blind(m) for m in flat_ops) else "C10:flatten:" + how, "resolve(flat, transformed assignment) differs gate by gate from the original with the numbers substituted", index=i, **wit)
         Ro = cirq.resolve_parameters(C, sw_list[i])
         for j, ops in enumerate(moments):
             check_resolved_ops(ctx, list(Ro[j].operations), ops, dims, e, "original", moment=j, index=i, **wit)
